@@ -2,6 +2,11 @@
 COMMON = ["records are written by the harness from the real loader / runner; TLC evaluates the predicates of PCPlan / PCConfig on every record",
           "text-shaped inputs are token sequences rendered to YAML by the harness; the expected text is computed by the specification by concatenation"]
 PROPS = {
+    "C11": dict(sub="output", trace_spec="PCConfigTrace", prefix=["C11_"], start='"kind":', model=("PCOutput", "PCOutput_mc.cfg"),
+                rule="real bash commands through the real pipeline: line counts {0,1,2,10,random,bursts of 200/2000/20000 right before exit} x "
+                     "stream mixes x very long lines (64 KiB+) x final line without newline x 1-3 attempts x logger none/per-process/flush_each_line/no_metadata/project file x log_length",
+                assumptions=["real processes (no commander seam); every written line carries a unique id; the log may hold supervisor-inserted separator lines (counted as junk)",
+                             "restart back-off scaled by 100 through the verifBackoff hook"]),
     "C13": dict(sub="scale", args=["-only", "scale"], trace_spec="PCConfigTrace", prefix=["C13_"], start='"kind":',
                 rule="sequences of 3 scale requests over targets {1,2,3,9,10,11} (thorough: also 99,100,101) incl. n<1, unknown / stale names, current value, "
                      "addressing by replica name; templates over PC_REPLICA_NUM in command/description/log_location/probe; some replicas already finished",
